@@ -1,5 +1,6 @@
 import Tcell.Model.Parser
 import Tcell.Model.Pipeline
+import Tcell.Model.PipelineReal
 import Driver.Util
 import Driver.Env
 import Driver.Parse
@@ -21,8 +22,8 @@ open Tcell Tcell.Model Tcell.Model.Pipeline Driver
 
 abbrev St := State Event PState
 
-def parserOf (cfg : Tcell.Model.Cfg) : Parser Event PState :=
-  { collect := fun st b exp => let r := Tcell.Model.collect cfg st b exp; (r.evs, r.st, r.rest) }
+/-- the instance the theorems of `Tcell.Props.C05Real` / `C06Real` are about (`Tcell.Model.Pipeline.realParser`) -/
+def parserOf (cfg : Tcell.Model.Cfg) : Parser Event PState := realParser cfg
 
 structure Ctx where
   P : Parser Event PState
